@@ -14,7 +14,7 @@ def plan(tier, seed):
     fl = [H("pf::p1_%s_%s_%d" % (f, m, n), "STANDARD float grammar: accept/reject, count, error kind+index, digit decomposition vs reference recogniser", "arbitrary bytes len<=%d" % n)
           for f in ("f32", "f64") for m in ("partial", "complete")]
     groups = [KGroup("D", fl, timeout=900 if tier == "quick" else 7200, jobs=6, mem_gb=14, stubbing=True, label="STANDARD floats")]
-    ints = [H("c04::k1_%s_4" % t, "STANDARD integer grammar vs reference scan", "arbitrary bytes len<=4") for t in ("u8", "i16", "u32", "i64")]
+    ints = [H("c04::k1_%s" % t, "STANDARD integer grammar vs reference scan", "arbitrary bytes len<=%s" % t[-1]) for t in (("u8_4", "i16_3", "u32_4", "i64_3") if tier == "quick" else ("u8_4", "i16_4", "u32_4", "i64_4"))]
     groups.append(KGroup("D", ints, timeout=900, jobs=6, mem_gb=14, label="STANDARD integers"))
     FD = "one syntax flag set: accept/reject, consumed count and digit decomposition vs the flag-parameterised reference recogniser (alphabet + - . 0 1 9 e E x X h n a N i f + one arbitrary byte)"
     if tier == "quick":
